@@ -32,7 +32,7 @@ TYPE_OF = {"stdnormal": "StandardNormal", "exp1": "Exp1", "normal": "Normal", "l
            "cauchy": "Cauchy", "pareto": "Pareto", "weibull": "Weibull", "gumbel": "Gumbel", "frechet": "Frechet", "skewnormal": "SkewNormal",
            "invgauss": "InverseGaussian", "nig": "NormalInverseGaussian", "poisson": "Poisson", "binomial": "Binomial", "geometric": "Geometric",
            "stdgeometric": "StandardGeometric", "hypergeometric": "Hypergeometric", "unitcircle": "UnitCircle", "unitdisc": "UnitDisc",
-           "unitsphere": "UnitSphere", "unitball": "UnitBall", "alias": "WeightedAliasIndex", "tree": "WeightedTreeIndex"}
+           "unitsphere": "UnitSphere", "unitball": "UnitBall", "alias": "WeightedAliasIndex", "tree": "WeightedTreeIndex", "treeh": "WeightedTreeIndex"}
 GENERIC = {"Normal", "LogNormal", "Exp", "Gamma", "ChiSquared", "StudentT", "FisherF", "Beta", "Pert", "Triangular", "Cauchy", "Pareto",
            "Weibull", "Gumbel", "Frechet", "SkewNormal", "InverseGaussian", "NormalInverseGaussian", "Poisson"}
 
@@ -107,6 +107,11 @@ def gen_jobs(ctx):
         jobs.append(("tree", "u32", [str(rng.below(1000)) for _ in range(ln - 1)] + ["5"]))
         jobs.append(("tree", "i64", [str(rng.below(10**12)) for _ in range(ln - 1)] + ["5"]))
         jobs.append(("tree", "f64", [S.f_bits("f64", rng.below(1000) / 8.0) for _ in range(ln - 1)] + [S.f_bits("f64", 1.0)]))
+    # trees reached by an update / push / pop history (float subtotals are then no longer the exact sums of a fresh build)
+    for _ in range(60):
+        ln = 2 + rng.below(7)
+        jobs.append(("treeh", "f64", [S.f_bits("f64", rng.below(100) / 10.0) for _ in range(ln - 1)] + [S.f_bits("f64", 1.5)]))
+        jobs.append(("treeh", "u32", [str(rng.below(1000)) for _ in range(ln - 1)] + ["5"]))
     return jobs
 
 
@@ -127,7 +132,7 @@ def correspond(ctx):
         j, eq, same = o.rsplit("|", 2)
         tree = json.loads(j)
         tname = TYPE_OF[fam]
-        key = tname + ("<%s>" % ty if tname in GENERIC or fam in ("alias", "tree") else "")
+        key = tname + ("<%s>" % ty if tname in GENERIC or fam in ("alias", "tree", "treeh") else "")
         variants.setdefault(key, set()).add(variant_key(tree))
         if has_null(tree) and tree is not None:
             stats["format_cannot_represent"] += 1
